@@ -135,6 +135,8 @@ pub struct VerifPoolSnapshot {
     pub retained_slots: Vec<Slot>,
     /// All certificates currently held.
     pub certs: Vec<Cert>,
+    /// Blocks currently waiting for their parent to be certified (safe-to-notar bookkeeping).
+    pub waiting_for_parent_cert: Vec<BlockId>,
 }
 
 /// Interface for the Pool.
@@ -655,6 +657,12 @@ impl Pool for PoolImpl {
             first_unpruned_slot: self.first_unpruned_slot(),
             retained_slots: self.slot_states.keys().copied().collect(),
             certs: self.get_certs(..),
+            waiting_for_parent_cert: self
+                .s2n_waiting_parent_cert
+                .values()
+                .flatten()
+                .cloned()
+                .collect(),
         }
     }
 }
